@@ -211,6 +211,19 @@ Definition c_round (mode : rmode) (c : cplx) : res (option brat) :=
   | RPi _ => Ok None
   end.
 
+(* ---------------- Value::floor / ceil / round (num/unit.rs) ---------------- *)
+
+(* let value = self.value.one_point()?.floor(int)?; Self { value, unit: self.unit, .. }
+   The coefficient in front of the unit is rounded and the unit is kept, so
+   for a unit with scale factor s (dozen = 12, % = 1/100, m/cm = 100) the
+   result denotes round(c) * s, not round(c * s). *)
+Definition u_round (mode : rmode) (c s : brat) : res brat :=
+  do r <- q_round mode c; Ok (rat_mul r s).
+
+(* classifier of the known defect: the unit's scale factor is not 1 *)
+Definition known_C10_round_unit_scale (s : brat) : bool :=
+  negb ((nval s =? dval s) && negb (rneg s)).
+
 (* ---------------- classifier of the repaired defect (documentation) ---------------- *)
 
 Definition is_small (b : buint) : bool := match b with Small _ => true | Large _ => false end.
